@@ -79,9 +79,9 @@ impl<T: Bounded> BVH<T> {
         let mut pending: Vec<TreeElement<T>> = Vec::new();
         // Nodos procesados (2*n-1 nodos con n terminales)
         let expected_num_nodes = if elements.is_empty() {
-            2 * (elements.len() / max_num_elements) - 1
+            1
         } else {
-            0
+            2 * (elements.len() / max_num_elements.max(1)) + 1
         };
         let mut node_list: Vec<TreeElement<T>> = Vec::with_capacity(expected_num_nodes);
 
@@ -174,6 +174,11 @@ impl<T: Bounded> BVH<T> {
                 parent_node.set_aabb_from_children();
                 completed.insert(parent_id, parent_node);
             }
+        }
+        // Árbol con un único nodo terminal (número de elementos <= max_num_elements)
+        if let Some(TreeElement(_, Leaf, _, None, Some(elements))) = node_list.pop() {
+            let aabb = elements.aabb();
+            return Self::new(Some(BVHNode::Leaf { aabb, elements }));
         }
         Self::new(completed.remove(&0_usize))
     }
